@@ -1,12 +1,48 @@
 package main
 
 import (
+	"bufio"
+	"flag"
 	"fmt"
-
-	"github.com/MinterTeam/mhub2/module/x/mhub2/types"
-	sdk "github.com/cosmos/cosmos-sdk/types"
+	"os"
+	"strings"
 )
 
+// hubharness run  < ops      : execute op lines against the real code, one output line per op
+// hubharness gen ...         : generate histories (see gen.go)
 func main() {
-	fmt.Println(types.EventVoteRecordPowerThreshold(sdk.NewInt(3)))
+	if len(os.Args) < 2 {
+		fmt.Println("usage: hubharness run|gen ...")
+		os.Exit(2)
+	}
+	switch os.Args[1] {
+	case "run":
+		fs := flag.NewFlagSet("run", flag.ExitOnError)
+		realOracle := fs.Bool("real-oracle", false, "wire the real oracle keeper")
+		fs.Parse(os.Args[2:])
+		runOps(os.Stdin, os.Stdout, *realOracle)
+	case "gen":
+		genMain(os.Args[2:])
+	case "replay":
+		replayMain(os.Args[2:])
+	default:
+		fmt.Println("unknown command")
+		os.Exit(2)
+	}
+}
+
+func runOps(in *os.File, out *os.File, realOracle bool) {
+	sc := bufio.NewScanner(in)
+	sc.Buffer(make([]byte, 1<<20), 1<<26)
+	w := bufio.NewWriter(out)
+	defer w.Flush()
+	env := NewEnv(realOracle)
+	for sc.Scan() {
+		line := strings.TrimSpace(sc.Text())
+		if line == "reset" {
+			env = NewEnv(realOracle)
+		}
+		fmt.Fprintln(w, env.Exec(line))
+		w.Flush()
+	}
 }
